@@ -200,9 +200,16 @@ def comprehensionise(stmts: List[ast.stmt], _loads: Optional[Dict[str, int]] = N
         body = list(cur.body)
         k = 0
         env: Dict[str, ast.AST] = {}
-        while k < len(body) - 1 and isinstance(body[k], ast.Assign) and len(body[k].targets) == 1 and isinstance(body[k].targets[0], ast.Name) and \
-                isinstance(body[k].value, SUBSTITUTABLE):
-            env[body[k].targets[0].id] = subst(body[k].value, env)
+        while k < len(body) - 1 and isinstance(body[k], ast.Assign) and len(body[k].targets) == 1 and isinstance(body[k].value, SUBSTITUTABLE) and \
+                (isinstance(body[k].targets[0], ast.Name) or
+                 (isinstance(body[k].targets[0], ast.Tuple) and all(isinstance(e_, ast.Name) for e_ in body[k].targets[0].elts))):
+            if isinstance(body[k].targets[0], ast.Name):
+                env[body[k].targets[0].id] = subst(body[k].value, env)
+            else:
+                # `a, b = E`  ->  a = E[0], b = E[1]   (description only: E is not evaluated here)
+                val_ = subst(body[k].value, env)
+                for pos_, e_ in enumerate(body[k].targets[0].elts):
+                    env[e_.id] = ast.Subscript(value=copy.deepcopy(val_), slice=ast.Constant(value=pos_), ctx=ast.Load())
             k += 1
         if k == 0 or k != len(body) - 1:
             if len(body) == 1 and isinstance(body[0], ast.For):
@@ -256,6 +263,18 @@ def comprehensionise(stmts: List[ast.stmt], _loads: Optional[Dict[str, int]] = N
                             cur = ast.copy_location(ast.Expr(value=ast.Call(func=a_.value.func, args=[ast.IfExp(test=cur.test, body=a_.value.args[0], orelse=b_.value.args[0])],
                                                                              keywords=[])), cur)
                             ast.fix_missing_locations(cur)
+                    if isinstance(cur, ast.For) and not cur.orelse and len(cur.body) >= 2 and isinstance(cur.body[0], ast.If) and not cur.body[0].orelse and \
+                            len(cur.body[0].body) == 1 and isinstance(cur.body[0].body[0], ast.Continue) and len(cur.body) == 2:
+                        # `for x in X: if c: continue; S`  is  `for x in X: if not c: S`
+                        neg = ast.UnaryOp(op=ast.Not(), operand=cur.body[0].test)
+                        if isinstance(cur.body[0].test, ast.Compare) and len(cur.body[0].test.ops) == 1 and isinstance(cur.body[0].test.ops[0], (ast.In, ast.NotIn)):
+                            t0 = cur.body[0].test
+                            neg = ast.Compare(left=t0.left, ops=[ast.NotIn() if isinstance(t0.ops[0], ast.In) else ast.In()], comparators=t0.comparators)
+                        folded = ast.If(test=neg, body=[cur.body[1]], orelse=[])
+                        cur2 = copy.copy(cur)
+                        cur2.body = [ast.copy_location(folded, cur.body[0])]
+                        ast.fix_missing_locations(cur2)
+                        cur = cur2
                     if isinstance(cur, ast.For) and not cur.orelse and len(cur.body) == 1:
                         gens.append(ast.comprehension(target=cur.target, iter=cur.iter, ifs=[], is_async=0))
                         cur = cur.body[0]
